@@ -18,6 +18,11 @@ def run(tier, seed):
     from . import c09handlers
     spec['trusted'] = list(spec.get('trusted', [])) + list(c09handlers.TRUSTED)
     spec['assumptions'] = list(spec.get('assumptions', [])) + list(c09handlers.ASSUMPTIONS)
+    # the functions that perform the store writes: Store/ZkUtils.v, Props/C09Zk.v, harness/props/zkutilsstage.py
+    from . import zkutilsstage
+    spec['trusted'] += list(zkutilsstage.TRUSTED)
+    spec['assumptions'] += list(zkutilsstage.ASSUMPTIONS)
+    spec['table_sections'] = list(spec.get('table_sections', [])) + list(zkutilsstage.SECTIONS)
     inner = spec.get('extra')
 
     def extra(r, cases, obs):
@@ -25,6 +30,9 @@ def run(tier, seed):
         u = c09handlers.stage(r, seed, tier)
         cov['extra_obligations'] = cov.get('extra_obligations', 0) + u.pop('handler_obligations', 0)
         cov.update(u)
+        z = zkutilsstage.stage(r, seed, tier)
+        cov['extra_obligations'] = cov.get('extra_obligations', 0) + z.pop('zkutils_obligations', 0)
+        cov.update(z)
         return cov
     spec['extra'] = extra
     core.standard_run(PID, tier, seed, spec)
@@ -34,4 +42,7 @@ def replay_case(case):
     if isinstance(case, dict) and case.get('engine') == 'E-master-c09handlers':
         from . import c09handlers
         return c09handlers.replay_case(case)
+    if isinstance(case, dict) and case.get('engine') == 'E-zkutils':
+        from . import zkutilsstage
+        return zkutilsstage.replay_case(case)
     return emaster.replay(PID, case)
